@@ -117,6 +117,7 @@ def _add_markdown_hard_break_handling(base_wrapper: LineWrapper) -> LineWrapper:
             # (`[label]: word` becomes one as soon as a line ends after the word).
             if (
                 markdown_line_is_rule(result[len(initial_indent) :])
+                or markdown_starts_like_definition(text, only_label=True)
                 if "\n" not in result
                 else markdown_starts_like_definition(text)
             ):
